@@ -38,6 +38,9 @@
 // shifted, overlapping or disjoint.  c = 0: natural capacity (up to the end of arr); c = 1:
 // cap = len (three-index slices).  The result must depend on the VALUES of the two arguments only;
 // the model is given lhs, rhs and what follows each in arr as its spare capacity.
+//
+// L lines: typed elements (== -equal but distinguishable floats, strings, structs), long inputs with
+// heavily repeated elements, the script re-read after the inputs were overwritten; see long.go.
 package main
 
 import (
@@ -93,6 +96,9 @@ func window(s, extra []int, guard int) (arr, win []int) {
 
 func exec(in string) string {
 	f := strings.Fields(strings.ReplaceAll(in, "_", " ")) // "_" for blanks: inputs reported by the extra steps
+	if len(f) > 0 && f[0] == "L" {
+		return execL(f)
+	}
 	var mode int
 	var larr, lhs, rarr, rhs []int
 	switch {
@@ -199,7 +205,7 @@ func ambiguous(l, r []int, mode int) bool {
 }
 
 func main() {
-	tr.Main("C11: every pair of sequences over 2 symbols to length 6 (quick) / 8 (thorough), over 3 symbols to length 4 / 5, over 2 keys x 2 payloads under the two key equivalences (v%2, v/2) to length 3 / 4; random pairs derived from a common base by dropping, inserting and overwriting runs (long common runs), over 2-4 symbols (heavy repetition), lengths to 60 (a few to 200), under ==, under key equivalences mod 2..4 and div 2..3, and (correspondence only, outside the precondition) under a non-transitive, an irreflexive and a non-symmetric relation, where the real code can panic and the model must predict it; and under a partial equivalence (3 related to nothing, as NaN under ==), which the theorems cover. In the aliased family both arguments are windows of ONE array (identical, same start with different lengths, nested, shifted, overlapping, disjoint). Every other input is a window into a larger array with guards in front and a spare capacity of 0..3 elements behind (sentinels, or elements of the alphabet). Non-trivial = a side repeats an element (ambiguous alignment); distinct = distinct input lines.",
+	tr.Main("C11: every pair of sequences over 2 symbols to length 6 (quick) / 8 (thorough), over 3 symbols to length 4 / 5, over 2 keys x 2 payloads under the two key equivalences (v%2, v/2) to length 3 / 4; random pairs derived from a common base by dropping, inserting and overwriting runs (long common runs), over 2-4 symbols (heavy repetition), lengths to 60 (a few to 200), under ==, under key equivalences mod 2..4 and div 2..3, and (correspondence only, outside the precondition) under a non-transitive, an irreflexive and a non-symmetric relation, where the real code can panic and the model must predict it; and under a partial equivalence (3 related to nothing, as NaN under ==), which the theorems cover. In the aliased family both arguments are windows of ONE array (identical, same start with different lengths, nested, shifted, overlapping, disjoint). Every other input is a window into a larger array with guards in front and a spare capacity of 0..3 elements behind (sentinels, or elements of the alphabet). L lines (long.go): the same through []float64 (+0 / -0 / NaN), []string (equal text in distinct storage) and []struct (key with ignored payload) with the script read again after every element of both arrays was overwritten; small scopes at every type, random medium pairs, and long inputs with more than 4096 equal position pairs per call (random binary sequences of 100-300 elements, all-equal and periodic sequences, long views of one array), their outputs bounded by digests. Non-trivial = a side repeats an element (ambiguous alignment); distinct = distinct input lines.",
 		exec, func(g *tr.G) {
 			n := 0
 			// the spare capacity behind the two inputs: none at all, sentinels, or elements that
@@ -457,5 +463,7 @@ func main() {
 				l, r := randPair(200, nsym)
 				emit(0, l, r, nsym, "random-long")
 			}
+			// typed, long and poisoned cases (long.go)
+			genLong(g, allSeqs)
 		})
 }
